@@ -4,6 +4,8 @@ import (
 	"fmt"
 	"math/big"
 
+	"github.com/piotrnar/gocoin/lib/secp256k1"
+
 	"verif/internal/ev"
 	"verif/ref/refhash"
 	"verif/ref/refscript"
@@ -142,6 +144,34 @@ func offCurveOutputKey(internal []byte, root []byte) (q []byte, parity bool) {
 	return refsecp.B32(Q.X), Q.Y.Bit(0) == 1
 }
 
+// implOutputKeyGuess asks the implementation's own (exported) curve arithmetic which
+// output key it would compute for an internal key. It is only a way to FIND a
+// candidate witness for invalid internal keys whose handling cannot be predicted
+// from the outside; the verdict on the resulting spend is still judged by the
+// reference. ok=false when the implementation itself refuses the key.
+func implOutputKeyGuess(internal []byte, root []byte) (q []byte, parity bool, ok bool) {
+	defer func() {
+		if recover() != nil {
+			ok = false
+		}
+	}()
+	var pk secp256k1.XY
+	if !pk.ParseXOnlyPubkey(internal) {
+		return nil, false, false
+	}
+	t := refhash.TapTweakHash(internal, root)
+	var tw secp256k1.Number
+	tw.SetBytes(t[:])
+	if !pk.ECPublicTweakAdd(&tw) {
+		return nil, false, false
+	}
+	pk.X.Normalize()
+	pk.Y.Normalize()
+	q = make([]byte, 32)
+	pk.X.GetB32(q)
+	return q, pk.Y.IsOdd(), true
+}
+
 func famG(r *ev.Run, p *pool) {
 	b := &batcher{p: p}
 	flG := []flagSet{fsBlkTaproot, fsStd, {"std-core", fStd | refscript.DISCOURAGE_UPGRADABLE_TAPROOT_VERSION}, {"blk-segwit", fBlkSegwit}}
@@ -254,23 +284,35 @@ func famG(r *ev.Run, p *pool) {
 			n   string
 			key []byte
 		}{
-			{"not-on-curve", notLiftable}, {"x>=p(reduces-to-liftable)", pPlus(smallLiftable)}, {"x=p", pPlus(0)}, {"x=2^256-1", fill(32, 0xff)}, {"x=0", make([]byte, 32)},
+			{"x<p-without-square-root", notLiftable}, {"x>=p", pPlus(smallLiftable)}, {"x>=p", pPlus(0)}, {"x>=p", fill(32, 0xff)}, {"x<p-without-square-root", make([]byte, 32)},
 		} {
 			for _, path := range [][]byte{nil, fill(32, 0x42)} {
 				leafHash := refhash.TapLeafHash(0xc0, leafTrue)
 				root := refhash.MerkleRootFromPath(leafHash, path)
-				q, parity := offCurveOutputKey(ik.key, root[:])
-				c0 := byte(0xc0)
-				if parity {
-					c0 |= 1
+				type cand struct {
+					q      []byte
+					parity bool
 				}
-				ctrl := cat([]byte{c0}, ik.key, path)
-				for _, fl := range flG[:2] {
-					l = append(l, mk("g", "internal-key/"+ik.n, fmt.Sprintf("internal key %x.. (%s), output key computed without validity checks", ik.key[:4], ik.n), nil, [][]byte{leafTrue, ctrl}, cat([]byte{0x51, 0x20}, q), fl))
-					// same with the other parity
-					c2 := append([]byte{}, ctrl...)
-					c2[0] ^= 1
-					l = append(l, mk("g", "internal-key/"+ik.n, fmt.Sprintf("internal key (%s), other parity", ik.n), nil, [][]byte{leafTrue, c2}, cat([]byte{0x51, 0x20}, q), fl))
+				var cands []cand
+				q0, par0 := offCurveOutputKey(ik.key, root[:])
+				cands = append(cands, cand{q0, par0})
+				if q1, par1, ok := implOutputKeyGuess(ik.key, root[:]); ok && string(q1) != string(q0) {
+					cands = append(cands, cand{q1, par1})
+				}
+				for _, cd := range cands {
+					q, parity := cd.q, cd.parity
+					c0 := byte(0xc0)
+					if parity {
+						c0 |= 1
+					}
+					ctrl := cat([]byte{c0}, ik.key, path)
+					for _, fl := range flG[:2] {
+						l = append(l, mk("g", "internal-key/"+ik.n, fmt.Sprintf("internal key %x.. (%s), output key computed without validity checks", ik.key[:4], ik.n), nil, [][]byte{leafTrue, ctrl}, cat([]byte{0x51, 0x20}, q), fl))
+						// same with the other parity
+						c2 := append([]byte{}, ctrl...)
+						c2[0] ^= 1
+						l = append(l, mk("g", "internal-key/"+ik.n, fmt.Sprintf("internal key (%s), other parity", ik.n), nil, [][]byte{leafTrue, c2}, cat([]byte{0x51, 0x20}, q), fl))
+					}
 				}
 			}
 		}
